@@ -270,8 +270,8 @@ pub fn check_case(entries: &[En], stream: bool, base: &Path, id: u64, st: &mut S
                     }
                 }
                 if let Some(pm) = perm {
-                    if gmode & 0o777 != pm & 0o777 {
-                        bad("permissions", format!("{p:?} has mode {:o}, recorded {:o}", gmode & 0o777, pm & 0o777), st);
+                    if gmode & 0o7777 != pm & 0o7777 {
+                        bad("permissions", format!("{p:?} has mode {:o}, recorded {:o}", gmode & 0o7777, pm & 0o7777), st);
                     }
                 }
             }
@@ -367,7 +367,7 @@ pub fn run(args: &Args) -> i32 {
     let shapes = name_shapes();
     ctx.rule = format!(
         "E-PROD with a real file system (tmpfs sandbox per case: canary/, sibling objects and same-named decoys around a target four levels deep). One-entry archives: {} names (every sequence of 1..3 components over {{a, b, ., .., empty}} with/without leading and trailing '/', absolute names aimed at the canary, climbing names, backslash, NUL, drive/UNC-like, 40-level nesting) \
-         x {{file, directory-typed, symlink-typed}} x content {{empty, 5 bytes}}; every permission value 0..=0o777 on a file and 0o700..=0o777 on a directory; two-entry archives over a {}-name alphabet squared x kind pairs (duplicates, file/directory conflicts, implied parents); three-entry archives over 8 names cubed. Both ZipArchive::extract and ZipStreamReader::extract. \
+         x {{file, directory-typed, symlink-typed}} x content {{empty, 5 bytes}}; every 12-bit mode 0..=0o7777 on a file, 0o700..=0o777 and all special-bit combinations on a directory; two-entry archives over a {}-name alphabet squared x kind pairs (duplicates, file/directory conflicts, implied parents); three-entry archives over 8 names cubed. Both ZipArchive::extract and ZipStreamReader::extract. \
          Oracle: (1) a recursive listing (type, size, mode, content hash) of everything in the sandbox outside the target is unchanged; (2) an unsafe name (lexical model) makes the call fail; (3) safe, mutually consistent archives extract successfully to exactly the model tree with byte-identical contents and the recorded permission bits. distinct_nontrivial = distinct (archive, extractor) pairs (hash set).",
         shapes.len(),
         if thorough { 40 } else { 24 }
@@ -391,21 +391,23 @@ pub fn run(args: &Args) -> i32 {
         }
     });
     ctx.stats.merge(s);
-    // permissions
-    let s = par_for(512 * 2 + 64 * 2 + 2, 8, |t, st| {
+    // permissions: every 12-bit mode on a file (set-uid/gid/sticky included), rwx and special bits on directories
+    let s = par_for(4096 * 2 + 64 * 2 + 8 * 2 + 2, 8, |t, st| {
         let stream = t % 2 == 1;
         let k = t / 2;
-        let e = if k < 512 {
+        let e = if k < 4096 {
             vec![En { name: "d/file".into(), kind: 0, content: b"perm".to_vec(), perm: Some(k as u32) }]
-        } else if k < 576 {
-            vec![En { name: "dir/".into(), kind: 1, content: vec![], perm: Some(0o700 | (k as u32 - 512)) }, En { name: "dir/inner".into(), kind: 0, content: b"x".to_vec(), perm: Some(0o600) }]
+        } else if k < 4160 {
+            vec![En { name: "dir/".into(), kind: 1, content: vec![], perm: Some(0o700 | (k as u32 - 4096)) }, En { name: "dir/inner".into(), kind: 0, content: b"x".to_vec(), perm: Some(0o600) }]
+        } else if k < 4168 {
+            vec![En { name: "sdir/".into(), kind: 1, content: vec![], perm: Some(0o755 | ((k as u32 - 4160) << 9)) }, En { name: "sdir/inner".into(), kind: 0, content: b"x".to_vec(), perm: Some(0o640) }]
         } else {
             vec![En { name: "noattr".into(), kind: 0, content: b"n".to_vec(), perm: None }, En { name: "noattr-dir/".into(), kind: 1, content: vec![], perm: None }]
         };
         check_case(&e, stream, base_r, (1 << 40) + t, st, (1 << 40) + t, "permissions");
     });
     ctx.stats.merge(s);
-    ctx.bound("permission_values", json!("files: all 512; directories: 0o700..=0o777"));
+    ctx.bound("permission_values", json!("files: all 4096 twelve-bit modes; directories: 0o700..=0o777 and 0o755 with every set-uid/gid/sticky combination"));
     // two-entry archives
     let m = if thorough { 40 } else { 24 };
     let mut red: Vec<String> = ["a", "b", "a/", "a/b", "a/b/", "b/a", "a/a", "../a", "/a", "a/../b", "a/..", "", "/", ".", "a/b/c", "a/b/c/", "b/", "{CANARY}/pwned", "../sibling/s", "a\0", "c", "a//b", "./a", "../../a"]
